@@ -256,7 +256,7 @@ def build(spec, wbs_kwargs=None):
 @st.composite
 def calendar_spec(draw, dead=False, backward=False, tod=False):
     kinds = ['default', 'weekly', 'weekly', 'weeklydict', 'direct_or_weekly', 'scaled', 'minus', 'bounded',
-             'sum', 'fixed', 'div']
+             'sum', 'fixed', 'div', 'applied']
     if tod:
         # validity bounds with a time of day (crash-freedom only: "that day's capacity" has two values here)
         kinds = ['bounded_tod', 'fixed_tod']
@@ -290,6 +290,8 @@ def calendar_spec(draw, dead=False, backward=False, tod=False):
         return ['minus', days, units, overrides]
     if kind == 'sum':
         return ['sum', days, units, overrides]
+    if kind == 'applied':
+        return ['applied', days, units, overrides, draw(st.sampled_from([1, 0.5]))]
     if kind == 'fixed':
         return ['fixed', draw(st.sampled_from([8, 1, 0.5, 5]))]
     if kind == 'bounded':
@@ -345,6 +347,9 @@ def make_calendar(cs, handles=None):
         return WeeklyCalendar(days=list(cs[1]), units_per_day=cs[2]) - _direct(cs[3], handles)
     if k == 'sum':
         return WeeklyCalendar(days=list(cs[1]), units_per_day=cs[2]) + _direct(cs[3], handles)
+    if k == 'applied':
+        f = cs[4]
+        return (_direct(cs[3], handles) | WeeklyCalendar(days=list(cs[1]), units_per_day=cs[2])).apply(lambda u: None if u is None else u * f)
     if k == 'fixed':
         return FixedCalendar(cs[1])
     if k == 'bounded_tod':
@@ -386,6 +391,8 @@ def min_positive_capacity(cs):
         return min(v)
     if k == 'sum':
         return cs[2]
+    if k == 'applied':
+        return min([x for x in cs[3].values() if x > 0] + [cs[2]]) * cs[4]
     if k == 'fixed':
         return cs[1] or 8
     return 8
@@ -414,15 +421,20 @@ def make_resources(rs, handles=None, wrap=False):
         n = res_name(key)
         r = Resource(n) if cal is None else Resource(n, cal)
         if wrap:
-            # a user-defined resource class (public extension point): same capacities, but not a `Resource`
+            # a user-defined resource class (public extension point): same capacities, but not a `Resource`.
+            # wrap == 2: capacity depends on the task - the crew serves a task only from BASE + (task id mod 3) days on
             class Crew(IResource):
-                def __init__(self, inner):
+                def __init__(self, inner, taskdep):
                     super().__init__(inner.name)
                     self.inner = inner
+                    self.taskdep = taskdep
 
                 def get_available_units(self, date, task=None):
+                    if self.taskdep and task is not None and isinstance(task.id, int) and \
+                            datetime(date.year, date.month, date.day) < BASE + timedelta(days=3 + task.id % 3):
+                        return 0
                     return self.inner.get_available_units(date, None)
-            r = Crew(r)
+            r = Crew(r, wrap == 2)
         out.append(r)
     return out
 
